@@ -120,8 +120,9 @@ def _check(ctx: Ctx, only=None) -> None:
         # early exit only once the requested length is reached
         for b in [n for n in ast.walk(lp) if isinstance(n, ast.Break)]:
             g = getattr(b, "_parent", None)
-            ok = isinstance(g, ast.If) and isinstance(g.test, ast.Compare) and isinstance(g.test.ops[0], (ast.GtE, ast.Gt)) \
-                and isinstance(g.test.left, ast.Name) and g.test.left.id == acc and isinstance(g.test.comparators[0], ast.Name) and g.test.comparators[0].id == req
+            from ..linear import relation, same_relation
+            rr = relation(g.test, Normaliser()) if isinstance(g, ast.If) else None
+            ok = rr is not None and (same_relation(rr, Sym.atom(acc) - Sym.atom(req), ">=") or same_relation(rr, Sym.atom(acc) - Sym.atom(req), ">"))
             ctx.check(ok, "MEASURE", f"{q}: measuring stops early only when the requested length is reached", function=q,
                       construct="measurement loop stops early under another condition", message=f"`{short(getattr(g, 'test', None))}`", file=fi.file, node=b)
         apps = [c for c in walk_local(fi.node) if isinstance(c, ast.Call) and call_method(c)[1] in ("append", "add_message")
